@@ -25,23 +25,77 @@ def _objdtype(dtype, ints_too):
     return dt
 
 
+def _trunc(v):
+    """value stored into an integer-typed array: truncation toward zero (what numpy's float -> int cast does)"""
+    import z3
+    if isinstance(v, Sym):
+        t = v.t
+        if z3.is_int(t): return v
+        return Sym(z3.If(t >= 0, z3.ToReal(z3.ToInt(t)), -z3.ToReal(z3.ToInt(-t))))
+    if isinstance(v, _np.ndarray):
+        r = _np.empty(v.shape, dtype=object)
+        for idx in _np.ndindex(*v.shape): r[idx] = _trunc(v[idx])
+        return r
+    if isinstance(v, (list, tuple)): return type(v)(_trunc(e) for e in v)
+    if isinstance(v, (float, _np.floating)): return int(v)
+    return v
+
+
+def _is_integral(o):
+    import z3
+    if isinstance(o, IntArr): return True
+    if isinstance(o, Sym): return z3.is_int(o.t)
+    if isinstance(o, (bool, int, _np.integer)): return True
+    if isinstance(o, _np.ndarray):
+        if _np.ndarray.dtype.__get__(o) != object: return _np.ndarray.dtype.__get__(o).kind in 'iub'
+        return all(_is_integral(e) for e in o.ravel())
+    return False
+
+
+class IntArr(_np.ndarray):
+    """object array that stands for an INTEGER-typed numpy array (opt-in, SymNP(int_dtype_model=True)): `.dtype` reports int64, stores
+    truncate toward zero, and in-place arithmetic with a non-integer operand raises like numpy does (casting rule 'same_kind')"""
+    @property
+    def dtype(self): return _np.dtype('int64')
+    def __setitem__(self, idx, v): _np.ndarray.__setitem__(self, idx, _trunc(v))
+    def _inplace(self, o, name):
+        if not _is_integral(o):
+            raise TypeError("Cannot cast ufunc '%s' output from dtype('float64') to dtype('int64') with casting rule 'same_kind'" % name)
+        return None
+    def __iadd__(self, o): self._inplace(o, 'add'); _np.ndarray.__setitem__(self, Ellipsis, _np.ndarray.__add__(self.view(_np.ndarray), o)); return self
+    def __isub__(self, o): self._inplace(o, 'subtract'); _np.ndarray.__setitem__(self, Ellipsis, _np.ndarray.__sub__(self.view(_np.ndarray), o)); return self
+    def __imul__(self, o): self._inplace(o, 'multiply'); _np.ndarray.__setitem__(self, Ellipsis, _np.ndarray.__mul__(self.view(_np.ndarray), o)); return self
+    def __itruediv__(self, o): raise TypeError("No loop matching the specified signature and casting was found for ufunc divide")
+
+
+def _is_int_dtype(dt):
+    if dt is None: return False
+    if dt is int: return True
+    try: return _np.dtype(dt).kind in 'iu'
+    except TypeError: return False
+
+
 class SymNP:
-    def __init__(self, ints_object=True):
+    def __init__(self, ints_object=True, int_dtype_model=False):
         self._ints = ints_object
+        self._intmodel = int_dtype_model
+
+    def _mk(self, a, dtype):
+        """with the integer-dtype model switched on, arrays requested with an integer dtype keep integer semantics"""
+        if self._intmodel and _is_int_dtype(dtype) and _np.ndarray.dtype.__get__(a) == object:
+            return a.view(IntArr)
+        return a
 
     def __getattr__(self, name):
         return getattr(_np, name)
 
     # ---- allocation
     def empty(self, shape, dtype=None, order='C', **kw):
-        return _np.empty(shape, dtype=_objdtype(dtype, self._ints), order=order)
+        return self._mk(_np.empty(shape, dtype=_objdtype(dtype, self._ints), order=order), dtype)
     def zeros(self, shape, dtype=None, order='C', **kw):
         a = _np.empty(shape, dtype=_objdtype(dtype, self._ints), order=order)
-        if a.dtype == object:
-            a[...] = 0
-        else:
-            a[...] = 0
-        return a
+        a[...] = 0
+        return self._mk(a, dtype)
     def ones(self, shape, dtype=None, order='C', **kw):
         a = _np.empty(shape, dtype=_objdtype(dtype, self._ints), order=order)
         a[...] = 1
@@ -51,7 +105,8 @@ class SymNP:
         a[...] = fill_value
         return a
     def empty_like(self, a, dtype=None, **kw):
-        return _np.empty(_np.shape(a), dtype=_objdtype(dtype if dtype is not None else getattr(a, 'dtype', None), self._ints))
+        dt = dtype if dtype is not None else getattr(a, 'dtype', None)
+        return self._mk(_np.empty(_np.shape(a), dtype=_objdtype(dt, self._ints)), dt)
     def zeros_like(self, a, dtype=None, **kw):
         r = self.empty_like(a, dtype); r[...] = 0; return r
     def ones_like(self, a, dtype=None, **kw):
@@ -67,13 +122,15 @@ class SymNP:
 
     def _has_sym(self, x):
         if isinstance(x, Sym): return True
-        if isinstance(x, _np.ndarray): return x.dtype == object
+        if isinstance(x, _np.ndarray): return _np.ndarray.dtype.__get__(x) == object
         if isinstance(x, (list, tuple)): return any(self._has_sym(e) for e in x)
         return False
 
     def array(self, x, dtype=None, copy=True, order=None, **kw):
+        if isinstance(x, IntArr) and (dtype is None or _is_int_dtype(dtype)):
+            return _np.array(x.view(_np.ndarray), dtype=object, copy=True).view(IntArr)      # an integer array stays one
         if self._has_sym(x):
-            return _np.array(x, dtype=object, copy=True)
+            return self._mk(_np.array(x, dtype=object, copy=True), dtype)
         return _np.array(x, dtype=dtype, order=order, **kw)
     def asarray(self, x, dtype=None, order=None, **kw):
         if isinstance(x, _np.ndarray) and x.dtype == object:
